@@ -73,9 +73,18 @@ func checkC08(P *core.Program, R *core.Report) {
 	checkModifiedPersistedX(P, R, modPersistSpec{Rule: "C08-position-persisted", TypePkg: "x/leveragelp/types", TypeName: "Position",
 		Store: "x/leveragelp/keeper.Keeper.SetPosition", Alt: []string{"x/leveragelp/keeper.Keeper.DestroyPosition"}, Subjects: subjects, Scratch: map[string]string{}})
 	checkOpenCounter(P, R, subjects)
+	checkIdCounterMonotone(P, R, "C08-id-monotone", "x/leveragelp/keeper.Keeper.SetPositionCount", "Keeper.GetPositionCount", subjects)
 	checkRecordFreshness(P, R, freshSpec{
 		Rule: "C08-pool-fresh", Load: "x/leveragelp/keeper.Keeper.GetPool", Store: "x/leveragelp/keeper.Keeper.SetPool", Subjects: subjects,
 		Tolerated: map[string]string{},
+	})
+	checkRecordFreshness(P, R, freshSpec{
+		Rule: "C08-position-fresh", Load: "x/leveragelp/keeper.Keeper.GetPosition", Store: "x/leveragelp/keeper.Keeper.SetPosition", Subjects: subjects,
+		Tolerated: map[string]string{},
+		Sinks: map[string][]int{
+			"x/leveragelp/keeper.Keeper.CheckAndLiquidateUnhealthyPosition": {2},
+			"x/leveragelp/keeper.Keeper.CheckAndCloseAtStopLoss":            {2},
+		},
 	})
 	checkIsolatedCall(P, R, "C08-close-isolated", "x/leveragelp/keeper.Keeper.CheckAndLiquidateUnhealthyPosition", llpFCL)
 	checkIsolatedCall(P, R, "C08-close-isolated", "x/leveragelp/keeper.Keeper.CheckAndCloseAtStopLoss", llpFCL)
